@@ -141,6 +141,15 @@ def handle (j : Json) : Except String Json := do
       | "assign" => pure (jsonOfRes (assign a conv chk .none v))
       | "set" => pure (jsonOfRes (setKw a conv chk .none v))
       | "lookup" => pure (jsonOfRes (lookupKey a conv chk v))
+      | "assign_pk" =>
+        let old ← valOfJson (← j.getObjVal? "old")
+        pure (jsonOfRes (assignPk a conv chk old v))
+      | "load" =>
+        let k ← ty.getObjValAs? String "k"
+        match k with
+        | "int" => pure (jsonOfRes (validateDb a (intSql2py (fun _ => parse)) v))
+        | "str" => pure (jsonOfRes (validateDb a strSql2py v))
+        | _ => throw "load: int or str"
       | _ => throw s!"bad entry {entry}"
   | _ => throw s!"unknown op {op}"
 end PonyVerif.Drive.C08
